@@ -14,7 +14,7 @@ contract(E + "Element.properties@setter",
 V = "statham.schema.validation:"
 ELEM_OK = "isinstance(element, Element) or is_cls(element)"
 
-contract(V + "get_validators", requires="is_obj(element) and elem_wf(element) and (attr_absent(element,'__properties__') or is_np(element.__properties__) or isinstance(element.__properties__, Properties))",
+contract(V + "get_validators", requires="is_obj(element) and elem_wf(element)",
          returns="is_list(result) and forall(lambda j: isinstance(result[j], Validator), len(result))",
          result_kind="list", ghost={"result_fresh": True},
          props=["C01", "C08", "C13", "C14", "C09"])
@@ -50,7 +50,7 @@ PROPS = "statham.schema.elements.properties:"
 
 for K in ["Element", "String", "Integer", "Number", "Boolean", "Null", "Array", "Not", "AnyOf", "OneOf", "AllOf"]:
     contract(E + "Element.__items__", inst=K, requires="elem_wf(self)",
-             returns="type_is(result, Items)", ghost={"result_fresh": True}, result_cls="Items",
+             returns="type_is(result, Items) and items_wf(result)", ghost={"result_fresh": True}, result_cls="Items",
              props=["C01", "C04", "C08", "C13", "C14"])
 
 # bound(E): every declared property is bound under its key to E and has a JSON name
@@ -64,7 +64,7 @@ macro("bound", ["e"], macro_src)
 
 for K in ["Element", "String", "Integer", "Number", "Boolean", "Null", "Array", "Not", "AnyOf", "OneOf", "AllOf"]:
     contract(E + "Element.__properties__", inst=K, requires="elem_wf(self) and bound(self)",
-             returns="type_is(result, Properties) and result.element is self", ghost={"result_fresh": True}, result_cls="Properties",
+             returns="type_is(result, Properties) and result.element is self and props_wf(result)", ghost={"result_fresh": True}, result_cls="Properties",
              props=["C01", "C04", "C05", "C08", "C13", "C14"])
 
 CALL_REQ = ("elem_wf(self) and bound(self) and (is_json(value) or is_np(value)) and "
@@ -81,3 +81,10 @@ for K in ["Element", "String", "Integer", "Boolean", "Null", "Array"]:
              may_raise=[(("ValidationError", "TypeError"), "is_list(value) or is_dict(value)")],
              lemmas=["DICT-ITEM"],
              props=["C01", "C04", "C08", "C10", "C13", "C14"])
+
+for K in ["Element", "String", "Integer", "Boolean", "Null", "Array"]:
+    contract(E + "Element.__call__", inst=K, requires=CALL_REQ + " and not attr_absent(self,'default') and (is_np(self.default) or is_json(self.default))",
+             returns="implies(is_np(value) and is_np(self.default), result is value)",
+             may_raise=[(("ValidationError", "TypeError"), "not is_np(value)")],
+             kinds={"validator": "Validator"}, lemmas=["DICT-ITEM"],
+             props=["C01", "C04", "C05", "C08", "C10", "C13", "C14"])
